@@ -36,6 +36,9 @@ class C17(Check):
         'filter, appendMedium, deleteMedium, __setitem__, item, serialisation), tied to the code by the '
         'differential correspondence of this run (implementation vs model on generated edit histories)',
         'translator tools/gen/c17_media.py (MEDIA_TYPES and keyword sets read from the source with ast)',
+        'translator tools/gen/c17_grammar.py (production trees captured from the live MediaList / MediaQuery objects) and '
+        'the engine model lean/CssVerif/Model/ProdEngine.lean: the derived automata agree with the engine on the '
+        'captured trees on every generated token list of this run (differential, not a theorem)',
         'the tokenizer (property C05) and the serialisation of single values (property C18): tokens and the text of '
         'a value token are inputs of the model',
     )
